@@ -302,7 +302,7 @@ class Fragment:
             pre, spec.rstrip(), before_next, pat, nxt, on_none, after_next)
         return self.replace_span(s, bo + 1, new, "R1", "for -> loop (Verus: for-loops do not support continue)")
 
-    def closure(self, prefix, occ=1, params=None, ret=None, spec="", rule="R3", body_tpl=None):
+    def closure(self, prefix, occ=1, params=None, ret=None, spec="", rule="R3", body_tpl=None, spec_map=()):
         """R3: annotate a closure. `prefix` is the closure head text e.g. `|idx|`.
         Expression-bodied closures get braces; block-bodied ones keep theirs.
         In `spec`, `{body}` is replaced by the closure's body expression text (expression-bodied only)."""
@@ -338,7 +338,10 @@ class Fragment:
             raise AnchorLost("closure body end not found")
         body = self.orig[s:end].rstrip()
         end = s + len(body)
-        sp = spec.replace("{body}", body)
+        specbody = body
+        for pat, rep in spec_map:
+            specbody = re.sub(pat, rep, specbody)
+        sp = spec.replace("{body}", body).replace("{specbody}", specbody)
         self.replace_span(m.start(), m.end(), "%s%s %s { " % (head, rtxt, sp), rule,
                           "closure contract (types, named return, clauses, braces; body expression unchanged)")
         return self.insert_at(end, " }")
